@@ -15,6 +15,7 @@ import (
 )
 
 type Clause struct {
+	Also  []string // other properties whose proofs may assume this clause
 	Prop  string
 	Label string
 	E     *Expr
@@ -106,6 +107,7 @@ type SpecDB struct {
 	Funcs      map[string]*FuncDecl
 	Defines    map[string]*Define
 	Axioms     []Clause
+	Lemmas     []Clause
 	Binds      []Binds
 	Files      []string
 	Immutable  map[string]bool // "pkg.T.f" fields assumed never written after construction
@@ -126,6 +128,10 @@ var labelRe = regexp.MustCompile(`^\[([A-Za-z0-9_.\-:#]+)\]\s*`)
 
 func parseClause(rest, prop, file string, line int) (Clause, error) {
 	c := Clause{Prop: prop, File: file, Line: line}
+	if i := strings.Index(prop, " also "); i >= 0 {
+		c.Prop = prop[:i]
+		c.Also = strings.Fields(prop[i+6:])
+	}
 	rest = strings.TrimSpace(rest)
 	if m := labelRe.FindStringSubmatch(rest); m != nil {
 		c.Label = m[1]
@@ -246,7 +252,10 @@ func (db *SpecDB) LoadFile(file string, pkgPath string) error {
 			if len(fields) < 3 {
 				return fmt.Errorf("%s:%d: ghost needs name and sort", file, ln)
 			}
-			g := &GhostDecl{Name: fields[1], Sort: fields[2], Prop: prop}
+			g := &GhostDecl{Name: fields[1], Sort: fields[2], Prop: strings.Fields(prop + " x")[0]}
+			if prop == "" {
+				g.Prop = ""
+			}
 			if len(fields) >= 5 && fields[3] == "invalidated_by" {
 				g.InvalidatedBy = fields[4]
 			}
@@ -296,6 +305,13 @@ func (db *SpecDB) LoadFile(file string, pkgPath string) error {
 			}
 			d.Body = e
 			db.Defines[d.Name] = d
+			cur = nil
+		case "lemma":
+			cl, err := parseClause(rest, prop, file, ln)
+			if err != nil {
+				return err
+			}
+			db.Lemmas = append(db.Lemmas, cl)
 			cur = nil
 		case "axiom":
 			c, err := parseClause(rest, prop, file, ln)
@@ -348,7 +364,7 @@ func (db *SpecDB) LoadFile(file string, pkgPath string) error {
 			}
 			prop = fileProp
 			if prop != "" {
-				cur.Props[prop] = true
+				cur.Props[strings.Fields(prop)[0]] = true
 			}
 		case "property":
 			prop = strings.TrimSpace(rest)
@@ -357,7 +373,7 @@ func (db *SpecDB) LoadFile(file string, pkgPath string) error {
 				cur = nil
 			}
 			if cur != nil && prop != "" {
-				cur.Props[prop] = true
+				cur.Props[strings.Fields(prop)[0]] = true
 			}
 		case "requires", "ensures":
 			if cur == nil {
